@@ -251,3 +251,27 @@ Proof. vm_compute. reflexivity. Qed.     (* the IPv4 phantom answers a probe: on
 (* work bounds are met with equality on some inputs *)
 Example ex_prefix_iters : prefix_loop_iters (fun _ => None) (repeat 9 70) tbl0 = 2%nat.
 Proof. vm_compute. reflexivity. Qed.
+
+(* ---- statistics epoch *)
+(* the split variant (lookup / create / increment in three regions) crashes when the epoch changes between
+   "create" and "increment": worker steps twice, Reset runs, worker increments through a nil counter *)
+Example ex_stats_split_epoch_panics :
+  run_all [0; 0; 1; 1; 1]%nat [mkT false (addreg_split_prog (957, 1, 4)); thread_of (TReset 1)] s_empty = Panic.
+Proof. vm_compute. reflexivity. Qed.
+(* also with the counter already there when the worker looks (the remembered lookup is stale after the swap) *)
+Example ex_stats_split_stale_lookup_panics :
+  run_all [0; 1; 1; 1; 1]%nat [mkT false (addreg_split_prog (957, 1, 4)); thread_of (TTicker 1)] (mkS [(957, 5)] [] []) = Panic.
+Proof. vm_compute. reflexivity. Qed.
+(* the same schedules on the programs of the code *)
+Example ex_stats_pinned_same_schedule :
+  run_all [0; 0; 1; 1; 1]%nat [thread_of (TWorker [(957, 1, 4)]); thread_of (TReset 1)] s_empty = Ok (mkS [] [] [(4, 1)]).
+Proof. vm_compute. reflexivity. Qed.
+(* without an epoch change in the window the split variant counts like the code *)
+Example ex_stats_split_no_reset_ok :
+  run_all [0; 1; 0; 1; 0; 1]%nat [mkT false (addreg_split_prog (1, 2, 3)); mkT false (addreg_split_prog (1, 2, 3))] s_empty
+  = Ok (mkS [(1, 2); (1, 0)] [(2, 2)] [(3, 2)]).
+Proof. vm_compute. reflexivity. Qed.
+Example ex_stats_two_workers_ticker :
+  run_all [0; 2; 1; 2; 0; 1; 2; 2]%nat [thread_of (TWorker [(1, 2, 3); (1, 1, 3)]); thread_of (TWorker [(1, 2, 3)]); thread_of (TTicker 1)] s_empty
+  = Ok (mkS [(1, 1)] [] []).
+Proof. vm_compute. reflexivity. Qed.
